@@ -35,7 +35,11 @@ RULE = (
     "built around the helper naming scheme (x with validator_x/factory_x/converter_x/attribute_x/key_x/repr_x/x_repr/_x_key, names equal "
     "to fixed helper names and to builtins, names that made the old _n_key / n_repr helpers coincide with an __attr_..._m name), each field "
     "with default/factory(takes_self)/converter(plain, takes_self, takes_field, both)/validator/eq key/hash/repr callable/"
-    "kw_only/init=False/on_setattr/explicit alias x api (attr.s, define, make_class) x poison mode (none, every referenced "
+    "kw_only/init=False/on_setattr/explicit alias x sharing of the user objects (harness-only: one Factory object / explicit "
+    "Converter instance / validator / key / repr / hook callable per kind, signature and field-index residue mod 1-3, used "
+    "by several differently named fields of the class and -- before the class is defined -- by 0-2 earlier classes under "
+    "rotated, reversed or fresh field names, instantiated or not; the class is compared with a twin built from fresh "
+    "objects) x api (attr.s, define, make_class) x poison mode (none, every referenced "
     "name, every referenced name attrs injects itself); a catalogue first (every name set x every helper kind x poison "
     "mode, every class flag x api, the listed hazards), then seeded random fill (quick 1900, thorough 150000 cases, one in "
     "six of kind hist/conc). "
@@ -53,6 +57,9 @@ ASSUMPTIONS = [
     "CPython 3.12's specialised module attribute load returns a module global __dict__ for `module.__dict__`, which breaks "
     "class creation itself before any generated code runs",
     "callbacks of different fields are distinct objects that tag their results, so a misdirected call changes the fingerprint",
+    "sharing of user objects between fields and with earlier classes is harness-only variation: a Lean Case has no object "
+    "identities and no history, the model says sharedOk = true; pooled objects tag results with (kind, signature, group), so "
+    "a call that reaches an object of another group -- or a helper name that is not bound -- differs from the fresh twin",
 ]
 LEVEL_TEXT = (
     "Lean theorems about an executable model of the globals assembly, helper naming scheme and linecache loop of "
@@ -73,7 +80,8 @@ LEVEL_TEXT = (
     "code objects (dis: LOAD_GLOBAL/LOAD_NAME, resolved by identity) in synthetic modules that pre-bind the referenced names "
     "to a poison object, injected-name sets, behaviour fingerprints (construction in four call shapes, repr, eq/ne, hash "
     "pattern, ordering, setattr, copy, pickle) clean vs poisoned vs neutral field names, inspect.getsource/linecache "
-    "recompiled against the running code objects (line tables included), sequential histories and forced thread "
+    "recompiled against the running code objects (line tables included), classes built from user objects shared between "
+    "fields and with earlier classes vs twins built from fresh objects, sequential histories and forced thread "
     "interleavings through an instrumented linecache.cache. LOAD_GLOBAL's builtins fallback, inspect.getsource and the "
     "linecache consumers are CPython's: observed, not proved. The cached-property __getattr__ script of slotted classes "
     "(own isolated globals without the module dict) is not covered. Known finding: K17c (an __init__ parameter named "
@@ -221,11 +229,21 @@ def rand_poison(rng):
     return rng.choice(["all"] * 6 + ["helpersOnly"] * 3 + ["none"] * 2)
 
 
-def herm_case(rng, names, cls=None, poison=None, api=None, fields=None):
+def rand_share(rng, p=0.4):
+    """harness-only: are the user objects of the class shared between its fields (one object per kind, signature
+    and field-index residue) and were they used before by earlier classes under other field names?"""
+    if rng.random() >= p:
+        return None
+    prior = rng.choice([["rot"], ["fresh"], ["rev"], ["rot", "fresh"], ["fresh", "rot"], ["rev", "rot"], []])
+    return {"groups": rng.choice([1, 2, 2, 3]), "prior": prior, "use_prior": rng.random() < 0.7}
+
+
+def herm_case(rng, names, cls=None, poison=None, api=None, fields=None, share="rand"):
     case = {"kind": "herm", "cls": cls or rand_cls(rng),
             "fields": fields if fields is not None else [rand_field(rng, n) for n in names],
             "poison": poison or rand_poison(rng),
-            "cfg": {"api": api or rng.choice(APIS), "order": rng.random() < 0.4}}
+            "cfg": {"api": api or rng.choice(APIS), "order": rng.random() < 0.4,
+                    "share": rand_share(rng) if share == "rand" else share}}
     return normalise(case)
 
 
@@ -247,7 +265,9 @@ def catalogue(rng):
                 fs.append(f)
             for poison in ("helpersOnly", "all"):
                 cls = dict(CLS0, genHash=True, frozen=variant == 1, cacheHash=variant == 1, slots=variant == 2)
-                yield herm_case(rng, names, cls=cls, poison=poison, api="attr.s", fields=[dict(f) for f in fs])
+                yield herm_case(rng, names, cls=cls, poison=poison, api="attr.s", fields=[dict(f) for f in fs],
+                                share={"groups": 1 + (variant + (poison == "all")) % 3,
+                                       "prior": [["rot"], ["fresh", "rot"], ["rev"]][variant], "use_prior": poison == "all"})
     for key in ("frozen", "slots", "cacheHash", "isExc", "preInit", "postInit"):
         cls = dict(CLS0, genHash=True)
         cls[key] = True
@@ -256,7 +276,8 @@ def catalogue(rng):
         fs = [mk_field("x", validator=True, conv="both", eqKey=True, repr="custom"),
               mk_field("y", dflt="factorySelf", conv="plain"), mk_field("z", dflt="value", init=False, repr="custom")]
         for api in ("attr.s", "define", "make_class"):
-            yield herm_case(rng, None, cls=dict(cls), poison="helpersOnly", api=api, fields=[dict(f) for f in fs])
+            yield herm_case(rng, None, cls=dict(cls), poison="helpersOnly", api=api, fields=[dict(f) for f in fs],
+                            share={"groups": 2, "prior": ["rot"], "use_prior": True})
     for osa, api in (("hook", "attr.s"), ("noop", "attr.s"), ("dflt", "define"), ("noop", "define"), ("hook", "make_class")):
         fs = [mk_field("x", validator=True, onSetattr="hook"), mk_field("y", conv="plain"), mk_field("z", onSetattr="noop")]
         yield herm_case(rng, None, cls=dict(CLS0, clsOnSetattr=osa), poison="helpersOnly", api=api, fields=fs)
@@ -396,7 +417,7 @@ def observe_herm(case):
         builds.append(clean)
         if clean.error:
             return {"defErr": clean.error, "table": [], "injected": [], "poisonOk": False, "neutralOk": False,
-                    "sourceOk": False}
+                    "sourceOk": False, "sharedOk": False}
         actual = [(a.name, a.alias) for a in clean.afields]
         if actual != [(f["name"], f["alias"]) for f in fields]:
             raise AssertionError(f"generator and attrs disagree about names/aliases: {actual}")
@@ -421,14 +442,56 @@ def observe_herm(case):
             builds.append(p)
             if p.error:
                 return {"defErr": "poisoned:" + p.error, "table": [], "injected": injected, "poisonOk": False,
-                        "neutralOk": neutral_ok, "sourceOk": source_ok}
+                        "neutralOk": neutral_ok, "sourceOk": source_ok, "sharedOk": False}
             table = p.table()
             poison_ok = p.fingerprint() == fp_clean
         else:
             table = clean.table()
             poison_ok = True
         return {"defErr": "", "table": table, "injected": injected, "poisonOk": poison_ok, "neutralOk": neutral_ok,
-                "sourceOk": source_ok}
+                "sourceOk": source_ok, "sharedOk": shared_ok(case)}
+    finally:
+        for b in builds:
+            b.close()
+
+
+def prior_names(fields, how):
+    """field names under which the shared objects were used in an earlier class"""
+    names = [f["name"] for f in fields]
+    n = len(names)
+    if how == "rot" and n > 1:
+        return names[1:] + names[:1]
+    if how == "rev" and n > 1 and names[::-1] != names:
+        return names[::-1]
+    return ["q%d_" % i for i in range(n)]
+
+
+def shared_ok(case):
+    """the class built from user objects that are shared between its fields and were used before, under other
+    field names, by an earlier class behaves (fingerprint, helper resolution by object group) exactly like its
+    twin built from fresh objects"""
+    share = case.get("cfg", {}).get("share")
+    if not share:
+        return True
+    fields = case["fields"]
+    builds = []
+    try:
+        pool = B.Pool(True, share["groups"])
+        for how in share["prior"]:
+            prior = B.Build(case, names=prior_names(fields, how), aliases=[None] * len(fields), pool=pool)
+            builds.append(prior)
+            if prior.error is None and share.get("use_prior", True):
+                try:
+                    prior.fingerprint()
+                except Exception:  # noqa: BLE001
+                    pass
+        shared = B.Build(case, pool=pool)
+        builds.append(shared)
+        twin = B.Build(case, pool=B.Pool(False, share["groups"]))
+        builds.append(twin)
+        if shared.error or twin.error:
+            return shared.error == twin.error
+        return shared.group_table() == twin.group_table() and shared.fingerprint() == twin.fingerprint()
     finally:
         for b in builds:
             b.close()
@@ -472,6 +535,9 @@ def dist(case, obs):
                 ("fac", f["dflt"] in ("factory", "factorySelf")), ("conv", f["conv"] != "none"), ("val", f["validator"]),
                 ("key", f["eqKey"]), ("repr", f["repr"] == "custom")) if on})) or "-",
             "explicit_alias": any(f.get("explicitAlias") for f in fs),
+            "share": ("g%d:%s" % (case["cfg"]["share"]["groups"], "+".join(case["cfg"]["share"]["prior"]) or "within")
+                      if case["cfg"].get("share") else "-"),
+            "sharedOk": obs.get("sharedOk") if isinstance(obs, dict) else "?",
             "poisonOk": obs.get("poisonOk") if isinstance(obs, dict) else "?",
             "neutralOk": obs.get("neutralOk") if isinstance(obs, dict) else "?",
             "table_size": min(len(obs.get("table", [])), 30) // 5 * 5 if isinstance(obs, dict) else "?",
@@ -497,6 +563,15 @@ def shrink(case):
                     yield normalise(_copy(dict(case, fields=fs[:i] + [dict(f, **{k: v})] + fs[i + 1:])))
         if case["poison"] == "all":
             yield _copy(dict(case, poison="helpersOnly"))
+        sh = case["cfg"].get("share")
+        if sh:
+            if len(sh["prior"]) > 1:
+                for how in sh["prior"]:
+                    yield _copy(dict(case, cfg=dict(case["cfg"], share=dict(sh, prior=[how]))))
+            if sh["groups"] > 1:
+                yield _copy(dict(case, cfg=dict(case["cfg"], share=dict(sh, groups=sh["groups"] - 1))))
+            if sh.get("use_prior"):
+                yield _copy(dict(case, cfg=dict(case["cfg"], share=dict(sh, use_prior=False))))
     else:
         ds = case["defs"]
         for i in range(len(ds)):
@@ -524,6 +599,8 @@ def neighbours(case, rng):
                 yield normalise(_copy(dict(case, cfg=dict(case["cfg"], api=api))))
         for k in ("frozen", "slots", "genHash", "genEq", "genRepr", "isExc"):
             yield normalise(_copy(dict(case, cls=dict(case["cls"], **{k: not case["cls"][k]}))))
+        for prior in (["rot"], ["fresh"], ["rev"]):
+            yield _copy(dict(case, cfg=dict(case["cfg"], share={"groups": 2, "prior": prior, "use_prior": True})))
         yield from shrink(case)
     else:
         n = len(case["defs"])
